@@ -583,6 +583,19 @@ func checkCursorMove(p *Prog, r *Report, fb *fnBounds, st *ssa.Store, fa *ssa.Fi
 			}
 		}
 	}
+	// the same, seen through boolean helpers: literals of the path condition that compare the text at the
+	// cursor with a constant
+	if len(f.Params) > 0 {
+		recv := "param:" + f.Params[0].Name()
+		for _, l := range pathLiterals(p, f, st.Block()) {
+			if kind, val := classifyPlanLiteral(l, recv, ""); kind == "needNext" {
+				matched = append(matched, struct {
+					l   lin
+					why string
+				}{linConst(int64(len(val))), "text at the cursor compared equal to a constant"})
+			}
+		}
+	}
 	for _, m := range matched {
 		g1 := geq(m.l, d, "advance ≤ matched length")
 		if entails(addLenNonNeg(facts, g1), g1) {
